@@ -1,7 +1,7 @@
 (* C14: what the writers write reads back. *)
 From Coq Require Import Lia.
 From Curies.model Require Import Str PyData Conv Loaders Val Spec CheckQ Writers.
-From Curies.proofs Require Import StrFacts DictFacts.
+From Curies.proofs Require Import StrFacts DictFacts CheckFacts.
 
 (* ---- extended prefix map: every record is reproduced exactly, synonym lists up to order ---- *)
 Theorem epm_roundtrip r : record_of_dict (record_to_dict r) = Some (normalise r).
@@ -155,4 +155,45 @@ Proof.
   cbn [app]. rewrite app_nil_r, rev_involutive. f_equal.
   pose proof (split_tab_go u [] [] T2) as E. rewrite app_nil_r in E. etransitivity; [exact E|].
   rewrite app_nil_r, rev_involutive. reflexivity.
+Qed.
+
+(* ---- the observation of the run is the property stated on the records alone ---- *)
+Lemma all_some_map_ok {A B} (f : A -> option B) (g : A -> B) l : (forall x, In x l -> f x = Some (g x)) -> all_some (map f l) = Some (map g l).
+Proof.
+  induction l as [|a l IH]; intro H; simpl; auto.
+  rewrite (H a) by (left; auto). rewrite IH by (intros; apply H; right; auto). reflexivity.
+Qed.
+Lemma nodup_written syn rs : NoDup (flat_map all_prefixes rs) -> NoDup (flat_map (written_prefixes syn) rs).
+Proof.
+  destruct syn; [exact (fun H => H)|].
+  induction rs as [|r rs IH]; simpl; intro H; [constructor|].
+  unfold all_prefixes in H. simpl in H. inversion H as [|x l Hx Hl]; subst. constructor.
+  - intro Hin. apply Hx. apply in_or_app. right. apply in_flat_map in Hin as (r' & Hr' & Hin).
+    apply in_flat_map. exists r'. split; auto. simpl in Hin. destruct Hin as [<-|[]]. left; auto.
+  - apply IH. apply NoDup_app_inv in Hl. apply Hl.
+Qed.
+
+Theorem model_is_spec rs fmt syn ex : valid_wr rs fmt = true -> model_wobs rs fmt syn ex = spec_wobs rs fmt syn.
+Proof.
+  unfold valid_wr, model_wobs, spec_wobs. rewrite andb_true_iff. intros [S V].
+  destruct (Z.eqb fmt 0); [rewrite epm_roundtrip_all; reflexivity|].
+  destruct (Z.eqb fmt 1).
+  { rewrite jsonld_roundtrip; auto.
+    - apply nodup_written. unfold strict_okb in S. apply andb_true_iff in S as [S _]. apply nodup_str_spec; exact S.
+    - intros r p Hr Hp. rewrite forallb_forall in V. specialize (V r Hr). rewrite forallb_forall in V. apply V.
+      unfold written_prefixes in Hp. unfold all_prefixes. destruct Hp as [<-|Hp]; [left; auto|]. destruct syn; [right; auto|destruct Hp]. }
+  destruct (Z.eqb fmt 2).
+  { apply andb_true_iff in V as [_ V]. rewrite forallb_forall in V.
+    erewrite all_some_map_ok; [reflexivity|]. intros r Hr. specialize (V r Hr).
+    apply andb_true_iff in V as [V Vp]. apply andb_true_iff in V as [Va Vu]. rewrite forallb_forall in Va.
+    apply shacl_roundtrip; auto. apply Va. left; auto. destruct (r_pat r); auto. }
+  rewrite forallb_forall in V.
+  assert (E: all_some (map (fun r => tsv_line (r_prefix r) (r_uri r)) rs) = Some (map (fun r => r_prefix r ++ [9%N] ++ r_uri r) rs)).
+  { apply all_some_map_ok. intros r Hr. specialize (V r Hr). apply andb_true_iff in V as [Vp Vu].
+    destruct (printable_no_quote _ Vp) as [Q1 _]. destruct (printable_no_quote _ Vu) as [Q2 _]. unfold tsv_line. rewrite Q1, Q2. reflexivity. }
+  rewrite E. f_equal. f_equal. clear E S. revert V. induction rs as [|r rs IH]; intro V; simpl; auto.
+  assert (Vr := V r (or_introl eq_refl)). apply andb_true_iff in Vr as [Vp Vu].
+  destruct (tsv_roundtrip _ _ Vp Vu) as (line & L & Sp).
+  destruct (printable_no_quote _ Vp) as [Q1 _]. destruct (printable_no_quote _ Vu) as [Q2 _]. unfold tsv_line in L. rewrite Q1, Q2 in L.
+  cbn [orb] in L. inversion L; subst line. cbn [app] in Sp. rewrite Sp. cbn [app]. f_equal. apply IH. intros x Hx. apply V. right; auto.
 Qed.
